@@ -29,6 +29,10 @@ MATRIX = [
     ["café"],
     ["\U0001f600 astral", ""],
     ["snö 'x'", "tab\there"],
+    ["100\xa0"],
+    ["\u3000"],
+    ["x", "\u2003"],
+    ["\x0bv", "w\x1f"],
 ]
 VARIANTS = ["ok", "confdir-missing", "history-is-dir"]
 
